@@ -27,7 +27,7 @@ def value_menu(rng):
     """(property name, python value, kind)"""
     import icalendar
     from icalendar.prop import vUri, vCalAddress, vRecur, vGeo, vUTCOffset, vBinary, vBoolean, vFloat
-    z = rng.choice(["Europe/Berlin", "America/New_York", "Asia/Tokyo"])
+    z = rng.choice(["Europe/Berlin", "America/New_York", "Asia/Tokyo", "Etc/UTC", "Zulu", "UCT", "Etc/GMT+5", "Africa/Monrovia"])
     y = rng.randrange(1990, 2035)
     dt = datetime(y, rng.randrange(1, 13), rng.randrange(1, 28), rng.randrange(24), rng.randrange(60), rng.randrange(60))
     menu = [
@@ -49,7 +49,7 @@ def value_menu(rng):
         ("rdate", [dt.replace(tzinfo=zi(z)), (dt + timedelta(days=7)).replace(tzinfo=zi(z))], "list-zoned"),
         ("rdate", [(dt.replace(tzinfo=timezone.utc), timedelta(hours=2))], "list-period"),
         ("freebusy", (dt.replace(tzinfo=timezone.utc), dt.replace(tzinfo=timezone.utc) + timedelta(hours=1)), "period"),
-        ("categories", ["a", "b c", "d"], "categories"),
+        ("categories", ["a", "b c", "d"], "categories"), ("categories", ["work", "errand", "work", "home"], "categories"),
         ("url", vUri("http://example.com/x?y=z"), "uri"), ("attendee", vCalAddress("mailto:a@example.com"), "caladdress"),
         ("organizer", vCalAddress("mailto:o@example.com"), "caladdress"),
         ("rrule", vRecur({"FREQ": ["WEEKLY"], "BYDAY": ["MO", "FR"], "COUNT": [5]}), "recur"),
